@@ -1,0 +1,21 @@
+//go:build verif
+
+// Contracts for package glf, checked by /verif. Comments only.
+package glf
+
+// C14: the fetch plan. Slices of names are read as sets.
+//@ spec opaque member(s []string, x string) bool = exists i int :: 0 <= i && i < len(s) && s[i] == x
+
+//@ func any props=C14
+//@   ensures result == (exists x string :: member(a, x) && member(b, x))
+//@   loop#0 invariant forall p int, q int :: 0 <= p && p <= rangeindex && 0 <= q && q < len(b) ==> a[p] != b[q]
+//@   loop#1 invariant forall p int, q int :: 0 <= p && p < i && 0 <= q && q < len(b) ==> a[p] != b[q]
+//@   loop#1 invariant forall q int :: 0 <= q && q <= rangeindex ==> a[i] != b[q]
+
+// difference(ours, others...) is the set difference. Its inductive step (membership in an
+// appended slice, under a nested quantifier) is outside what the solvers discharge:
+// TRUSTED contract, backed by a bounded exhaustive stand-in (harness/glf).
+//@ spec opaque inAny(os [][]string, n int, x string) bool = exists p int :: 0 <= p && p < n && member(os[p], x)
+//@ func difference props=C14 trusted modifies=heap_string,heap___string
+//@   ensures forall x string :: member(result, x) <==> old(member(ours, x) && !inAny(others, len(others), x))
+//@   ensures result == nil || !old(alloc(result))
